@@ -49,6 +49,9 @@ type BytesCase struct {
 var weightedKinds []string
 
 func initWeighted() {
+	// rapid draws 0 much more often than any other number and mix(0)=0, so index 0 gets extra cases: give them
+	// to the raw transaction path.
+	weightedKinds = append(weightedKinds, "tx-raw")
 	for _, k := range kinds {
 		for i := 0; i < k.weight; i++ {
 			weightedKinds = append(weightedKinds, k.name)
@@ -151,7 +154,7 @@ var binDict = [][]byte{
 }
 
 var textDict = [][]byte{
-	[]byte(`1e100`), []byte(`[1e400]`), []byte(`-1e40`), []byte(`1e5000000`), []byte(`123.000`), []byte(`2.8e+22`), []byte(`9007199254740993`),
+	[]byte(`1e100`), []byte(`[1e400]`), []byte(`-1e40`), []byte(`1e3000000`), []byte(`[1e100000000]`), []byte(`123.000`), []byte(`2.8e+22`), []byte(`9007199254740993`),
 	[]byte(`{"a":1,"a":2}`), rep("[", 11), append(rep("[", 10), rep("]", 10)...), append(rep("[", 11), rep("]", 11)...),
 	[]byte(`{"type":"Integer","value":"1` + strings.Repeat("0", 90) + `"}`),
 	[]byte(`{"type":"Map","value":[{"key":{"type":"Array","value":[]},"value":{"type":"Any"}}]}`),
@@ -211,7 +214,7 @@ var (
 	reStr = regexp.MustCompile(`"(?:[^"\\]|\\.)*"`)
 )
 
-var textToks = []string{`1e100`, `1e400`, `-1e40`, `1e5000000`, `123.000`, `2.8e+22`, `9007199254740993`, `18014398509481984`, `-0`, `0.5`, `null`, `true`, `[]`, `{}`, `""`,
+var textToks = []string{`1e100`, `1e400`, `-1e40`, `1e3000000`, `1e100000000`, `123.000`, `2.8e+22`, `9007199254740993`, `18014398509481984`, `-0`, `0.5`, `null`, `true`, `[]`, `{}`, `""`,
 	`"*"`, `"1` + strings.Repeat("0", 90) + `"`, `"Integer"`, `"Pointer"`, `"InteropInterface"`, `"Buffer"`, `-1`, `4294967296`, `"\ud800"`, `"\u0000"`, `[[[[[[[[[[[[1]]]]]]]]]]]]`}
 
 func (m *mutState) apply(k *kind, mu Mut) {
@@ -423,13 +426,33 @@ func (m *mutState) apply(k *kind, mu Mut) {
 // effMaxCount caps injected counts for decoders whose loop or allocation is driven by the count alone.
 func effMaxCount(k *kind) uint64 {
 	mc := k.maxCount
-	if vt.Known("alloc/"+family(k.name)) && (mc == 0 || mc > 1<<16) {
+	if probing {
+		return mc // a probe re-confirms the recorded finding with the recorded count
+	}
+	if (vt.Known("alloc/"+family(k.name)) || family(k.name) == "msg" && vt.Known("alloc/merkleblock")) && (mc == 0 || mc > 1<<16) {
 		mc = 1 << 16 // the recorded finding is not re-triggered in every case, the search goes on behind it
 	}
 	return mc
 }
 
 func family(name string) string { return strings.TrimSuffix(name, "-sr") }
+
+// allocKey names an allocation finding; for a P2P frame it is the finding of the payload type the command carries
+// (the frame only is the way it gets in).
+func allocKey(k *kind, in []byte) string {
+	fam := family(k.name)
+	if fam == "msg" && len(in) > 1 {
+		switch network.CommandType(in[1]) {
+		case network.CMDMerkleBlock:
+			return "alloc/merkleblock"
+		case network.CMDAddr:
+			return "alloc/addr"
+		case network.CMDVersion:
+			return "alloc/version"
+		}
+	}
+	return "alloc/" + fam
+}
 
 func (k *kind) isNodeterm(e []byte) bool {
 	return k.nodeterm || k.nodetermFn != nil && k.nodetermFn(e)
@@ -546,6 +569,9 @@ type verdict struct {
 // is counted as excluded instead, so that the search continues behind it.
 func (vd *verdict) fail(key, f string, a ...any) error {
 	if key != "" && vt.Known(key) {
+		if onExcluded != nil {
+			onExcluded(key)
+		}
 		if !vd.excluded {
 			vd.excluded = true
 			vd.o.Excluded()
@@ -618,7 +644,14 @@ func checkValue(c ValueCase, o *vt.Obs) error {
 		return nil
 	}
 	if err != nil {
-		return fmt.Errorf("%s: decoder rejects the encoding of a valid value: %v\nvalue: %s\nbytes: %x", k.name, err, short(d0), shortB(e))
+		key := ""
+		if k.decFailKey != nil && !errors.As(err, &pe) {
+			key = k.decFailKey(v, e, err)
+		}
+		if err := vd.fail(key, "%s: decoder rejects the encoding of a valid value: %v\nvalue: %s\nbytes: %x", k.name, err, short(d0), shortB(e)); err != nil {
+			return err
+		}
+		return nil
 	}
 	if n != len(e) {
 		return fmt.Errorf("%s: decoder consumed %d of %d bytes of a valid encoding", k.name, n, len(e))
@@ -792,6 +825,7 @@ func checkBytes(c BytesCase, o *vt.Obs) error {
 	switch {
 	case len(c.Tape) > 0 || len(c.Raw) == 0 && len(c.Muts) > 0 || len(c.Raw) == 0:
 		t := newTape(c.Tape)
+		t.hostile = c.Hostile
 		v := k.build(t)
 		if it, ok := v.(stackitem.Item); ok && c.Hostile && !k.text {
 			h := &hostile{t: t, every: 3}
@@ -836,11 +870,18 @@ func oracleBytes(k *kind, in []byte, expectReject, origin string, o *vt.Obs) err
 	// 2^22 are executed (and show up as allocation / as accepted values); beyond that the loop would run for minutes
 	// to centuries and cannot be interrupted from inside the process, so the case is reported without running it.
 	if k.guard != nil {
-		if n := k.guard(in); n > 1<<22 {
-			if e := vd.fail("hang/"+fam, "%s: the decoder's loop is driven by the count field alone: this %d-byte input makes it run %d iterations (not executed; found as a hang of the harness, see C17_TRACE); input %x",
+		n := k.guard(in)
+		if n > 1<<22 {
+			if e := vd.fail("hang/"+fam, "%s: the decoder's work is driven by a number in the input alone: this %d-byte input makes it run for %d steps (not executed; found as a hang of the harness, see C17_TRACE); input %x",
 				k.name, len(in), n, shortB(in)); e != nil {
 				return e
 			}
+			return nil
+		}
+		if n > 1<<16 && !probing && (vt.Known("hang/"+fam) || vt.Known("alloc/"+fam)) {
+			// Recorded: do not spend seconds and hundreds of MiB on re-confirming it in every such case.
+			_ = vd.fail("hang/"+fam, "")
+			_ = vd.fail("alloc/"+fam, "")
 			return nil
 		}
 	}
@@ -858,7 +899,7 @@ func oracleBytes(k *kind, in []byte, expectReject, origin string, o *vt.Obs) err
 		return nil
 	}
 	if limit := uint64(allocConst + allocPerByte*len(in)); alloc > limit {
-		if e := vd.fail("alloc/"+fam, "%s: decoding %d bytes allocated %d bytes (bound %d); accepted=%v; input %x", k.name, len(in), alloc, limit, err == nil, shortB(in)); e != nil {
+		if e := vd.fail(allocKey(k, in), "%s: decoding %d bytes allocated %d bytes (bound %d); accepted=%v; input %x", k.name, len(in), alloc, limit, err == nil, shortB(in)); e != nil {
 			return e
 		}
 	}
@@ -873,6 +914,11 @@ func oracleBytes(k *kind, in []byte, expectReject, origin string, o *vt.Obs) err
 		return fmt.Errorf("%s: decoder reports %d consumed bytes of %d", k.name, n, len(in))
 	}
 	used := in[:n]
+	if k.invariant != nil {
+		if err := k.invariant(v); err != nil {
+			return fmt.Errorf("%s: %v; input %x", k.name, err, shortB(in))
+		}
+	}
 	d0, err := safeStr(k.dump, v)
 	if err != nil {
 		errors.As(err, &pe)
@@ -1003,12 +1049,15 @@ func safeAlt(p altPath, b []byte) (id string, err error) {
 // noncanonKey names the recorded identity findings for values accepted from a non-canonical encoding.
 func noncanonKey(k *kind, v any) string {
 	switch family(k.name) {
-	case "tx-raw", "tx-hashable", "tx":
+	case "tx-raw", "tx":
 		return "tx-identity-from-received-bytes"
 	case "msg":
 		if m, ok := v.(*network.Message); ok && m.Command == network.CMDTX {
 			return "tx-identity-from-received-bytes"
 		}
+	}
+	if family(k.name) == "tx-hashable" {
+		return "tx-hashable-identity-from-received-bytes"
 	}
 	return "noncanonical-identity/" + family(k.name)
 }
